@@ -159,9 +159,16 @@ static const char *innermost_fn (struct fiber *f, char *buf, size_t n) {
 	snprintf (buf, n, "-");
 	return buf;
 }
+/* VERIF_IGNORE=O-mem,...: oracles that belong to another property's check and are switched off in this run, so that the
+   execution goes on to what the fault does to this property (used only in the exploration that follows a divergence) */
+static const char *ignored_oracles;
 void rt_violation (const char *oracle, const char *fmt, ...) {
 	va_list ap;
 	if (G->has_viol) return;
+	if (ignored_oracles) {
+		const char *q = strstr (ignored_oracles, oracle); size_t n = strlen (oracle);
+		if (q && (q == ignored_oracles || q[-1] == ',') && (q[n] == 0 || q[n] == ',')) return;
+	}
 	G->has_viol = 1;
 	snprintf (G->viol.oracle, sizeof G->viol.oracle, "%s", oracle);
 	va_start (ap, fmt);
@@ -287,6 +294,9 @@ static void check_access (const void *addr, int size, int is_write, int atomic) 
 		return;
 	}
 }
+
+/* An access made on behalf of the code under test by a stand-in (the ideal lock touching the mutex word). */
+void rt_touch (const void *addr, int is_write) { if (G && G->cur) check_access (addr, 4, is_write, 1); }
 
 /* ------------------------------------------------------------------ happens-before */
 static int hb_tracked (const char *p) {
@@ -789,6 +799,7 @@ void rt_init (void) {
 	G = mmap (0, sizeof *G, PROT_READ | PROT_WRITE, MAP_PRIVATE | MAP_ANONYMOUS, -1, 0);
 	G->arena = mmap (0, ARENA_SIZE + 4096, PROT_READ | PROT_WRITE, MAP_PRIVATE | MAP_ANONYMOUS, -1, 0);
 	G->now = RT_T0;
+	ignored_oracles = getenv ("VERIF_IGNORE");
 	load_symbols ();
 	G->altstack = mmap (0, 65536, PROT_READ | PROT_WRITE, MAP_PRIVATE | MAP_ANONYMOUS, -1, 0);
 	ss.ss_sp = G->altstack; ss.ss_size = 65536; ss.ss_flags = 0;
